@@ -29,9 +29,18 @@ def group_comp_family(seed, n, budget):
     rnd = random.Random(seed)
     fam = D.alt_family(seed, n // 2, maxlen=3, budget=budget) + D.adj_family(seed + 1, n // 4, maxlen=3, budget=budget) + \
         D.acmd_family(seed + 2, n - n // 2 - n // 4, maxlen=3, budget=budget)
-    for d in fam:
+    for k, d in enumerate(fam):
         d["alpha"]["clusters"] = False
         d["alpha"]["spells"] = [x for x in d["alpha"]["spells"] if x != "glued"] or ["sep"]
+        # headers, also one inside another (a choice with a header whose members have headers of their own)
+        for f in d["named"]:
+            if f["kind"] == "alt" and k % 2 == 0:
+                f["group_help"] = f"GH-{f['id']}"
+                for j, l in enumerate(D.field_leaves(f)):
+                    if j % 2 == 0:
+                        l["group_help"] = f"GH-{l['id']}"
+            elif f["kind"] in ("switch", "reqflag", "arg") and k % 3 == 0:
+                f["group_help"] = f"GH-{f['id']}"
         for it in [l for f in d["named"] for l in D.field_leaves(f)]:
             if it["kind"] == "arg" and it["vt"] != "int" and rnd.random() < 0.5:
                 it["completer"] = [f"cv{it['id']}a", f"cv{it['id']}b"]
